@@ -172,6 +172,30 @@ Proof.
   - apply forallb_forall. intros x Hx. apply Nat.ltb_lt. apply COV. apply in_app_or. exact Hx.
 Qed.
 
+Lemma partition_in_bool : forall input n (has_cb : bool) gone alive rc cbs,
+  NoDup gone -> NoDup alive -> (forall i, In i gone -> ~ In i alive) ->
+  (forall i, In i input <-> In i gone \/ In i alive) ->
+  map fst rc = rev gone -> cbs = (if has_cb then rev gone else []) ->
+  spec_partition_in input n has_cb gone alive rc cbs = true.
+Proof.
+  intros input n has_cb gone alive rc cbs NG NA DJ COV RC CB. unfold spec_partition_in.
+  apply andb_true_iff. split.
+  - apply forallb_forall. intros i _.
+    rewrite RC, count_rev. subst cbs.
+    assert (CC : count i (if has_cb then rev gone else []) = (if has_cb then count i gone else 0)%nat).
+    { destruct has_cb; [apply count_rev | reflexivity]. }
+    rewrite CC. destruct (mem i input) eqn:M.
+    + apply mem_In in M. apply COV in M. destruct M as [G|A].
+      * rewrite (count_in _ _ NG G), (count_notin _ _ (DJ _ G)). cbn. rewrite !Nat.eqb_refl. reflexivity.
+      * assert (NGi : ~ In i gone) by (intro G; exact (DJ _ G A)).
+        rewrite (count_notin _ _ NGi), (count_in _ _ NA A). cbn. destruct has_cb; reflexivity.
+    + assert (NI : ~ In i input) by (intro H; apply mem_In in H; congruence).
+      assert (NGi : ~ In i gone) by (intro G; apply NI; apply COV; left; exact G).
+      assert (NAi : ~ In i alive) by (intro A; apply NI; apply COV; right; exact A).
+      rewrite (count_notin _ _ NGi), (count_notin _ _ NAi). cbn. destruct has_cb; reflexivity.
+  - apply forallb_forall. intros x Hx. apply mem_In. apply COV. apply in_app_or. exact Hx.
+Qed.
+
 Section Procs.
   Variable ps : list proc.
   Variable cb : cbkind.
@@ -524,7 +548,7 @@ Section Procs.
     wait_procs kos cb fuel order (Some tm) rounds start = (exc, gone, alive, g) ->
     exc <> Some ROutOfFuel.
   Proof.
-    intros tm rounds start exc gone alive g NN FU RB H. unfold wait_procs in H.
+    intros tm rounds start exc gone alive g NN FU RB H. unfold wait_procs, wait_procs_from in H.
     assert (B : bad_timeout (Some tm) = false) by (cbn; apply negb_false_iff; apply Qle_bool_iff; exact NN).
     rewrite B in H.
     set (g0 := {| g_now := start; g_objs := map (fun _ => new_pobj) kos; g_gone := []; g_rc := [];
@@ -571,7 +595,7 @@ Section Procs.
     exc <> Some ROutOfFuel ->
     spec_procs ps cb start tmo exc gone alive (g_rc g) (g_cb g) (g_now g) = true.
   Proof.
-    intros tmo rounds start exc gone alive g H NO. pose proof H as H0. unfold wait_procs in H.
+    intros tmo rounds start exc gone alive g H NO. pose proof H as H0. unfold wait_procs, wait_procs_from in H.
     unfold spec_procs. destruct (bad_timeout tmo) eqn:B; [inversion H; reflexivity|].
     set (g0 := {| g_now := start; g_objs := map (fun _ => new_pobj) kos; g_gone := []; g_rc := [];
                   g_cb := []; g_sleeps := []; g_waits := [] |}) in *.
@@ -607,6 +631,54 @@ Section Procs.
       | apply forallb_forall; exact RC
       | destruct tmo as [t|]; [|reflexivity]; apply Qlt_bool_true; unfold cap;
         eapply (wait_procs_deadline ps _ fuel order order_perm wf_all); [eapply bad_timeout_false; eauto | exact H0] ].
+    inversion H. reflexivity.
+  Qed.
+
+  (* the same for an input with aliases (handles over the processes 0 .. N-1, any multiplicity) *)
+  Theorem wait_procs_of_meets_oracle : forall input tmo rounds start exc gone alive g,
+    (forall x, In x input -> (x < N)%nat) ->
+    wait_procs_of kos cb fuel order input tmo rounds start = (exc, gone, alive, g) ->
+    exc <> Some ROutOfFuel ->
+    spec_procs_in input ps cb start tmo exc gone alive (g_rc g) (g_cb g) (g_now g) = true.
+  Proof.
+    intros input tmo rounds start exc gone alive g RNG H NO. pose proof H as H0. unfold wait_procs_of, wait_procs_from in H.
+    unfold spec_procs_in. destruct (bad_timeout tmo) eqn:B; [inversion H; reflexivity|].
+    set (g0 := {| g_now := start; g_objs := map (fun _ => new_pobj) kos; g_gone := []; g_rc := [];
+                  g_cb := []; g_sleeps := []; g_waits := [] |}) in *.
+    pose proof (fi_init start) as F0. fold g0 in F0.
+    assert (LK0 : LOK (nodup Nat.eq_dec input) g0).
+    { split; [apply NoDup_nodup|]. intros x Hx. apply nodup_In in Hx. split; [apply RNG; exact Hx | intros []]. }
+    assert (MAIN : forall X : option wres * list nat * list nat * gst,
+      match outer kos cb fuel order rounds (match tmo with Some t => Some (start + t) | None => None end)
+                  (nodup Nat.eq_dec input) g0 tmo 0 with
+      | (Some e, alive, g, _) => (Some e, [], alive, g)
+      | (None, alive, g, r) =>
+        match sweep kos cb fuel (order r alive) g with
+        | (Some e, g') => (Some e, [], alive, g')
+        | (None, g') => (None, g_gone g', minus alive (g_gone g'), g')
+        end
+      end = X -> fst (fst (fst X)) <> Some ROutOfFuel ->
+      fst (fst (fst X)) = None /\ RCI (snd X)).
+    { intros X HX NX.
+      destruct (outer kos cb fuel order rounds _ (nodup Nat.eq_dec input) g0 tmo 0) as [[[e1 alive1] g1] r1] eqn:OU.
+      destruct (outer_full _ _ _ _ _ _ _ _ _ _ LK0 F0 OU) as (F1 & _ & E1 & L1).
+      destruct E1 as [->| ->]; [|subst X; cbn in NX; contradiction].
+      destruct (sweep kos cb fuel (order r1 alive1) g1) as [e2 g2] eqn:SW.
+      destruct (sweep_full _ _ _ _ (lok_perm r1 alive1 g1 (L1 eq_refl)) F1 SW) as (F2 & _ & E2 & _).
+      destruct E2 as [->| ->]; [|subst X; cbn in NX; contradiction].
+      subst X. cbn [fst snd]. split; [reflexivity | apply F2]. }
+    assert (FIN : match cb with CbBad => False | _ => True end ->
+                  exc = None /\ RCI g).
+    { intro NB. destruct cb; try contradiction; destruct (MAIN _ H NO) as [A Bq]; cbn [fst snd] in A, Bq; split; assumption. }
+    destruct cb eqn:CBE.
+    1,2: destruct (FIN I) as [-> RC];
+      destruct (wait_procs_of_partition kos _ fuel order order_perm _ _ _ _ _ _ _ H0) as (NG & NA & DJ & COV & _ & RCm & CBm);
+      (apply andb_true_iff; split; [apply andb_true_iff; split|]);
+      [ apply partition_in_bool; assumption
+      | apply forallb_forall; exact RC
+      | destruct tmo as [t|]; [|reflexivity]; apply Qlt_bool_true; unfold cap;
+        eapply (wait_procs_from_deadline ps _ fuel order order_perm wf_all); [eapply bad_timeout_false; eauto | | exact H0];
+        intros x Hx; apply nodup_In in Hx; apply RNG; exact Hx ].
     inversion H. reflexivity.
   Qed.
 End Procs.
